@@ -1,4 +1,5 @@
 import CollectionsC.Proofs.PTreeWF
+import CollectionsC.Proofs.PTreeInsertLoop
 /-! # C03 / C17 — the pointer level of `cc_treetable.c`
 
 `Model/PTree.lean` is the tree as the C code sees it: a heap of nodes `{ key, value, color, left, right,
@@ -21,14 +22,26 @@ ids) are pointer surgery, assignment by assignment in the order of the C text.
   arrive at the node the path-based walks of the inductive model name — hence, by
   `C03.successor_walk_is_inorder`, at the in-order neighbours.
 
-**Not proved, compared by the harness only**: that `cc_treetable_add` (descent, linking the new node,
-the `rebalance_after_insert` loop) commutes with `Tree.ins` + blackening, and that `remove_node` with
-`rebalance_after_delete` commutes with `Tree.del` (and keeps `Represents`).  These functions *are* in the
-pointer-level model and executable: the Lean driver runs it alongside the inductive model on every
-history, checks `toTree` = the inductive tree after every call (flag `inv`), and prints the tree from the
-pointer-level heap with node ids and parent ids (`#id^parent`), which the correspondence check compares
-with the ids and `parent` fields of the C heap (L3) — for insertions, deletions (all CLRS cases, the
-two-child re-linking of the successor *node*, the sentinel's parent) and iterator removal alike. -/
+* `rebalance_after_insert`: every iteration of the `while` loop, in each of its six cases (uncle red;
+  uncle black with `z` an outer / an inner child; both sides), turns a heap that represents `T` into one
+  that represents `T` with **the inductive fix-up `Tree.fixInsLeft` / `fixInsRight` applied at the
+  grandparent** (`fixup_case*`), and the loop as a whole — with the final `root->color = BLACK` — keeps
+  `Represents`, the node set and the in-order content (`rebalance_after_insert_wf`).
+
+**Not proved, compared by the harness only**:
+* `cc_treetable_add` end to end.  What remains: (a) the descent + linking of the new red node (heap
+  `addDescent`, `fresh`) represents the tree with a red leaf at the descent position; (b) the purely
+  inductive fact that running the case steps bottom-up along the path (stopping at the first black
+  parent) equals the structurally recursive `Tree.ins` with its fix-up at every ancestor — true under
+  the red-black invariant because the fix-up is the identity where no red node has a red child; the
+  premises the case lemmas take (`z` red, its sibling black, uncle colour) are what that invariant gives.
+* `remove_node` with `rebalance_after_delete` against `Tree.del` (and `Represents` through them).
+These functions *are* in the pointer-level model and executable: the Lean driver runs it alongside the
+inductive model on every history, checks `toTree` = the inductive tree after every call (flag `inv`), and
+prints the tree from the pointer-level heap with node ids and parent ids (`#id^parent`), which the
+correspondence check compares with the ids and `parent` fields of the C heap (L3) — for insertions,
+deletions (all CLRS cases, the two-child re-linking of the successor *node*, the sentinel's parent) and
+iterator removal alike. -/
 namespace CC.Properties.C03PTree
 open CC CC.PTree
 open CC.Tree (Path Dir)
@@ -106,5 +119,104 @@ theorem iter_next_saves_successor_node (st : PT) (t : ITree) (h : Represents st 
   unfold iterNext
   simp only [hn, S, hx0, if_false]
   exact ⟨trivial, (walks_agree h q hs).1⟩
+
+/-! ## `rebalance_after_insert` -/
+
+/-- **case 1** (red uncle): three recolourings, `z` moves to the grandparent `gi`; the heap represents the
+tree with `Tree.fixInsLeft` applied at the grandparent position `g` (and `toTree` says so) -/
+theorem fixup_case1_left (st : PT) (T : ITree) (g : Path) (gi : Nat) (cg : Colour) (p : Nat) (pl : ITree)
+    (pk pv : Nat) (pr : ITree) (kg vg yi : Nat) (yl : ITree) (yk yv : Nat) (yr : ITree)
+    (h : At st T g (.node gi cg (.node p .red pl pk pv pr) kg vg (.node yi .red yl yk yv yr)))
+    (d2 : Dir) (z : Nat) (zl : ITree) (zk zv : Nat) (zr : ITree)
+    (hz : (ITree.node p .red pl pk pv pr).subtree [d2] = .node z .red zl zk zv zr) (f : Nat) :
+    ∃ st', rebalInsertLoop (f + 1) st z = rebalInsertLoop f st' gi ∧
+      At st' T g (ITree.fixInsLeft (.node gi cg (.node p .red pl pk pv pr) kg vg (.node yi .red yl yk yv yr))) ∧
+      toTree st' = Tree.replaceAt T.erase g
+        (Tree.fixInsLeft (ITree.node gi cg (.node p .red pl pk pv pr) kg vg (.node yi .red yl yk yv yr)).erase) := by
+  obtain ⟨st', e, hA⟩ := insert_step_L_case1 h d2 hz f
+  have hc : pl.col = .red ∨ pr.col = .red := by
+    cases d2 with
+    | L => left; simp only [ITree.subtree_L, ITree.subtree_root] at hz; rw [hz]; rfl
+    | R => right; simp only [ITree.subtree_R, ITree.subtree_root] at hz; rw [hz]; rfl
+  rw [← ITree.fixInsLeft_case1 _ _ _ _ _ _ _ _ _ _ _ _ _ _ hc] at hA
+  exact ⟨st', e, hA, by rw [hA.toTree, ITree.erase_fixInsLeft]⟩
+
+/-- **case 3** (black uncle, `z` an outer child): recolour, rotate right at the grandparent -/
+theorem fixup_case3_left (st : PT) (T : ITree) (g : Path) (gi : Nat) (cg : Colour) (p z : Nat) (zl : ITree)
+    (zk zv : Nat) (zr : ITree) (pk pv : Nat) (pr : ITree) (kg vg : Nat) (Y : ITree)
+    (h : At st T g (.node gi cg (.node p .red (.node z .red zl zk zv zr) pk pv pr) kg vg Y))
+    (hY : Y.col = .black) (f : Nat) :
+    ∃ st', rebalInsertLoop (f + 1) st z = rebalInsertLoop f st' z ∧
+      At st' T g (ITree.fixInsLeft (.node gi cg (.node p .red (.node z .red zl zk zv zr) pk pv pr) kg vg Y)) ∧
+      toTree st' = Tree.replaceAt T.erase g
+        (Tree.fixInsLeft (ITree.node gi cg (.node p .red (.node z .red zl zk zv zr) pk pv pr) kg vg Y).erase) := by
+  obtain ⟨st', e, hA⟩ := insert_step_L_case3 h hY f
+  rw [← ITree.fixInsLeft_case3 _ _ _ _ _ _ _ _ _ _ _ _ _ _ hY] at hA
+  exact ⟨st', e, hA, by rw [hA.toTree, ITree.erase_fixInsLeft]⟩
+
+/-- **case 2 then 3** (black uncle, `z` an inner child, its sibling black): rotate left at the parent, recolour,
+rotate right at the grandparent -/
+theorem fixup_case2_left (st : PT) (T : ITree) (g : Path) (gi : Nat) (cg : Colour) (p z : Nat) (zl : ITree)
+    (zk zv : Nat) (zr : ITree) (pk pv : Nat) (pl : ITree) (kg vg : Nat) (Y : ITree)
+    (h : At st T g (.node gi cg (.node p .red pl pk pv (.node z .red zl zk zv zr)) kg vg Y))
+    (hY : Y.col = .black) (hs : pl.col = .black) (f : Nat) :
+    ∃ st', rebalInsertLoop (f + 1) st z = rebalInsertLoop f st' p ∧
+      At st' T g (ITree.fixInsLeft (.node gi cg (.node p .red pl pk pv (.node z .red zl zk zv zr)) kg vg Y)) ∧
+      toTree st' = Tree.replaceAt T.erase g
+        (Tree.fixInsLeft (ITree.node gi cg (.node p .red pl pk pv (.node z .red zl zk zv zr)) kg vg Y).erase) := by
+  obtain ⟨st', e, hA⟩ := insert_step_L_case2 h hY f
+  rw [← ITree.fixInsLeft_case2 _ _ _ _ _ _ _ _ _ _ _ _ _ _ hY hs] at hA
+  exact ⟨st', e, hA, by rw [hA.toTree, ITree.erase_fixInsLeft]⟩
+
+/-- the mirror images (parent on the right of the grandparent) -/
+theorem fixup_case1_right (st : PT) (T : ITree) (g : Path) (gi : Nat) (cg : Colour) (p : Nat) (pl : ITree)
+    (pk pv : Nat) (pr : ITree) (kg vg yi : Nat) (yl : ITree) (yk yv : Nat) (yr : ITree)
+    (h : At st T g (.node gi cg (.node yi .red yl yk yv yr) kg vg (.node p .red pl pk pv pr)))
+    (d2 : Dir) (z : Nat) (zl : ITree) (zk zv : Nat) (zr : ITree)
+    (hz : (ITree.node p .red pl pk pv pr).subtree [d2] = .node z .red zl zk zv zr) (f : Nat) :
+    ∃ st', rebalInsertLoop (f + 1) st z = rebalInsertLoop f st' gi ∧
+      At st' T g (ITree.fixInsRight (.node gi cg (.node yi .red yl yk yv yr) kg vg (.node p .red pl pk pv pr))) := by
+  obtain ⟨st', e, hA⟩ := insert_step_R_case1 h d2 hz f
+  have hc : pl.col = .red ∨ pr.col = .red := by
+    cases d2 with
+    | L => left; simp only [ITree.subtree_L, ITree.subtree_root] at hz; rw [hz]; rfl
+    | R => right; simp only [ITree.subtree_R, ITree.subtree_root] at hz; rw [hz]; rfl
+  rw [← ITree.fixInsRight_case1 _ _ _ _ _ _ _ _ _ _ _ _ _ _ hc] at hA
+  exact ⟨st', e, hA⟩
+theorem fixup_case3_right (st : PT) (T : ITree) (g : Path) (gi : Nat) (cg : Colour) (p z : Nat) (zl : ITree)
+    (zk zv : Nat) (zr : ITree) (pk pv : Nat) (pl : ITree) (kg vg : Nat) (Y : ITree)
+    (h : At st T g (.node gi cg Y kg vg (.node p .red pl pk pv (.node z .red zl zk zv zr))))
+    (hY : Y.col = .black) (f : Nat) :
+    ∃ st', rebalInsertLoop (f + 1) st z = rebalInsertLoop f st' z ∧
+      At st' T g (ITree.fixInsRight (.node gi cg Y kg vg (.node p .red pl pk pv (.node z .red zl zk zv zr)))) := by
+  obtain ⟨st', e, hA⟩ := insert_step_R_case3 h hY f
+  rw [← ITree.fixInsRight_case3 _ _ _ _ _ _ _ _ _ _ _ _ _ _ hY] at hA
+  exact ⟨st', e, hA⟩
+theorem fixup_case2_right (st : PT) (T : ITree) (g : Path) (gi : Nat) (cg : Colour) (p z : Nat) (zl : ITree)
+    (zk zv : Nat) (zr : ITree) (pk pv : Nat) (pr : ITree) (kg vg : Nat) (Y : ITree)
+    (h : At st T g (.node gi cg Y kg vg (.node p .red (.node z .red zl zk zv zr) pk pv pr)))
+    (hY : Y.col = .black) (hs : pr.col = .black) (f : Nat) :
+    ∃ st', rebalInsertLoop (f + 1) st z = rebalInsertLoop f st' p ∧
+      At st' T g (ITree.fixInsRight (.node gi cg Y kg vg (.node p .red (.node z .red zl zk zv zr) pk pv pr))) := by
+  obtain ⟨st', e, hA⟩ := insert_step_R_case2 h hY f
+  rw [← ITree.fixInsRight_case2 _ _ _ _ _ _ _ _ _ _ _ _ _ _ hY hs] at hA
+  exact ⟨st', e, hA⟩
+
+/-- the id-annotated fix-ups are the inductive model's -/
+theorem fixups_erase (G : ITree) :
+    (ITree.fixInsLeft G).erase = Tree.fixInsLeft G.erase ∧ (ITree.fixInsRight G).erase = Tree.fixInsRight G.erase :=
+  ⟨ITree.erase_fixInsLeft G, ITree.erase_fixInsRight G⟩
+
+/-- **`rebalance_after_insert(table, z)` preserves well-formedness**: started at a red node `z` (at position
+`q`) of a well-formed table whose root is black or is `z`, the loop with the final root blackening ends in
+a well-formed heap — child pointers, parent pointers, `root`, sentinel, `size` consistent — with the same
+nodes, the same in-order content and a black root -/
+theorem rebalance_after_insert_wf (st : PT) (T : ITree) (q : Path) (z : Nat) (zl : ITree) (zk zv : Nat) (zr : ITree)
+    (h : Represents st T) (hz : T.subtree q = .node z .red zl zk zv zr) (hroot : q = [] ∨ T.col = .black)
+    (hf : q.length ≤ st.size + 2) :
+    ∃ T', Represents (rebalanceAfterInsert st z) T' ∧ (toTree (rebalanceAfterInsert st z)).toList = (toTree st).toList ∧
+      T'.ids.Perm T.ids ∧ T'.col = .black := by
+  obtain ⟨T', a, b, c, d⟩ := rebalanceAfterInsert_wf st T q z zl zk zv zr h hz hroot hf
+  exact ⟨T', a, by rw [a.toTree, h.toTree, b], c, d⟩
 
 end CC.Properties.C03PTree
